@@ -46,6 +46,12 @@ def step (d : DState) (ws : List String) : DState × String :=
     | none => (d, "bad-op")
   | ["idx"] => (d, s!"{d.q.oldest} {d.q.newest}")
   | ["root"] => (d, hex (Trie.root d.t))
+  -- commit <e0> <e1> …: the hash a block / roll-up commits to for the ETX list = root of the trie {rlp(i) -> entry i}
+  | "commit" :: vs => match vs.mapM unhex with
+    | some vals =>
+      let t := (vals.zipIdx).foldl (fun t (v, i) => Trie.update t (RLP.encodeNat i) v) Trie.Node.nil
+      (d, hex (Trie.root t))
+    | none => (d, "bad-op")
   | _ => (d, "bad-op")
 
 end QuaiVerif.EtxQueue
